@@ -690,11 +690,6 @@ theorem run_finish_batch (v : Variant) (s : St) (h : s.pc = .writing) :
   simp only [run_append, run_write1_all v s.otherQ s rfl h]
   cases hr : v.releaseAtSwap <;> cases hl : s.lastRunning <;> simp [run, step, h, hr]
 
-def isIoStep (e : Step) : Bool :=
-  match e with
-  | .swap | .write1 | .report | .release => true
-  | _ => false
-
 /-- once the stop flag is set, the flusher can always run to completion on its own -/
 theorem flusher_completes (v : Variant) (s : St) (hstop : s.running = false) :
     ∃ sched : List Step, sched.all isIoStep = true ∧ (run v s sched).pc = .exited := by
